@@ -954,8 +954,10 @@ def run_plan(mode, method, plan, want_log=False, prior=False, config='plain'):
             samtools = tuple(p[1] for p in plan if p[0] == 'samtools')
         log_path = os.path.join(d, 'events.log') if want_log else None
         variant = cfg.get('input')
+        prior_recs = None
         if prior:
             build_input(inp, method, earlier=True, variant=variant)
+            prior_recs = records(inp)
             c0 = _fork_run(inp, out, d, mode, method, [], None, extra, () if samtools is not None else None, chdir)
             text0, _ = _read_status(out_abs)
             if c0 != 0 or text0 is None or SUCCESS not in text0:
@@ -992,6 +994,18 @@ def run_plan(mode, method, plan, want_log=False, prior=False, config='plain'):
             for l in open(log_path):
                 s, o, st, sk = l.rstrip('\n').split('\t')
                 events.append((s, int(o), int(st), int(sk)))
+        if prior and _status_unwritable(plan):
+            # the status file of the EARLIER run cannot be written at all (every status write of this run fails to open it): the run
+            # has no way to take the old success text back, so the only way to keep "success => complete, sorted, indexed output"
+            # true is to leave the output that text describes alone
+            viol = []
+            if text is not None and SUCCESS in text:
+                problem = output_problem(out_abs, prior_recs, 'all')
+                if problem:
+                    where = '+'.join(_where(s_, o, w) for s_, o, w, k in plan if s_ != 'status_write') or 'no-further-fault'
+                    viol.append((f'{mode}:{method}:rerun-with-unwritable-status-file:stale-success-status-but-the-output-it-describes-is-'
+                                 f'{problem}:{where}', {'exit': code, 'status': text, 'stale': stale}))
+            return viol, {'exit': code, 'status': text, 'events': events}
         viol = judge(mode, method, plan, code, text, out_abs, inrecs, prior, config=config, stale=stale, fire=fire)
         return viol, {'exit': code, 'status': text, 'events': events}
     finally:
@@ -1177,7 +1191,7 @@ def shards(tier):
                                 'prior': prior, 'config': 'unmapped_tail'})
     # cluster mode with the local scheduler (each execution runs several interpreters: few, one per shard)
     for i, plan in enumerate(CLUSTER_PLANS):
-        if tier == 'quick' and i not in (0, 1):
+        if tier == 'quick' and i not in (0, 1, 5):
             continue
         out.append({'level': 'cluster', 'mode': 'cluster', 'method': 'nla', 'kind': 'fail', 'part': i, 'nparts': len(CLUSTER_PLANS), 'prior': False,
                     'config': 'plain'})
@@ -1189,7 +1203,7 @@ def shards(tier):
                         'config': 'plain'})
     # a real multiprocessing.Pool: a worker raising (quick) / workers dying, the parent hangs and is killed after a timeout (thorough)
     for i, plan in enumerate(REALPOOL_PLANS):
-        if tier == 'quick' and i not in (0, 1):
+        if tier == 'quick' and i not in (0, 1, 5):
             continue
         out.append({'level': 'realpool', 'mode': 'realpool', 'method': 'nla', 'kind': 'worker', 'part': i, 'nparts': len(REALPOOL_PLANS), 'prior': False,
                     'config': 'plain'})
@@ -1252,6 +1266,13 @@ def _count(acc, level, config, kind, prior, info):
         acc.count('executions:re-run-over-finished-output', 1)
     says = info['status'] is not None and (SUCCESS in info['status'] or CLUSTER_SUCCESS in info['status'])
     acc.count(f"final-status:{'success' if says else 'not-success'}:exit={'0' if info['exit'] == 0 else 'nonzero'}", 1)
+
+
+UNWRITABLE_STATUS = [('status_write', occ, 'before', 'oserror') for occ in range(4)]
+
+
+def _status_unwritable(plan):
+    return all(tuple(u) in [tuple(p) for p in plan] for u in UNWRITABLE_STATUS)
 
 
 def _not_for_rerun(p):
@@ -1362,6 +1383,13 @@ def run_shard(shard, tier, acc):
         for p in allpts:
             if (kind == 'oserror' or not _is_old_point(p)) and not (prior and _not_for_rerun(p)):
                 plans.append([p + (kind,)])
+        if prior and kind == 'exception':
+            # a re-run whose status file cannot be written (a colleague's file, read-only bit, quota): alone, and followed by an
+            # exception at every later point of the first version (sort, index, merge, ...)
+            plans.append(list(UNWRITABLE_STATUS))
+            for p in allpts:
+                if _is_old_point(p) and p[0] != 'status_write':
+                    plans.append(list(UNWRITABLE_STATUS) + [p + ('exception',)])
         if kind == 'exception' and tier != 'quick' and not prior:
             # fault sequences (deviation bound 2) over ALL points: a second exception at each of the next 6 points of the fault-free run
             # (after a retried sort the run continues: sort fails, then index / remove / move / status write fails), and a first
